@@ -1,8 +1,12 @@
 (* Strings as lists of Unicode scalar values; byte strings as lists of N < 256.
    Definitions only (no proofs) so that the model runs even when a proof is broken. *)
 From Coq Require Export List NArith ZArith Bool.
+From Coq Require Import String Ascii.
 Export ListNotations.
 Open Scope N_scope.
+
+(* ASCII text written in the model as Coq string literals: K "SELECT " *)
+Definition K (s : string) : list N := List.map N_of_ascii (list_ascii_of_string s).
 
 Definition chr := N.
 Definition str := list N.
